@@ -53,6 +53,20 @@ def _host_mws():
 HOST_MWS = _host_mws()
 
 
+def _exotic():
+    import re
+    import decimal
+    import datetime
+
+    def ep_exotic_defaults(request, x, pattern=re.compile('a|b'), amount=decimal.Decimal('1.50'), tags=frozenset(['t']),
+                           when=datetime.datetime(2020, 1, 2, 3, 4, 5), blob=b'\xff\x00', callback=len, sentinel=object(), kind=dict):
+        return Response('exotic')
+    return ep_exotic_defaults
+
+
+ep_exotic_defaults = _exotic()
+
+
 class ReprHolder(object):
     def __init__(self, text):
         self.text = text
@@ -174,7 +188,7 @@ class C18(Check):
     level_text = ('Single host-call faults are enumerated completely (every call site x every documented exception and unusual '
                   'value, both views) on a fixed host; host applications and multi-fault plans are sampled.')
     level_note = 'Trusted: the catalogue of what each host call can raise/return (sim/core/hoststub.py).'
-    required_probes = ('equal-but-different-values-listed', 'cookie-key-given-as-text', 'tuple-valued-resource', 'secret-resource-with-failing-repr', 'host-context-names-clash-with-meta-working-names', 'sibling-section-cannot-be-computed', 'host-shares-middleware-type-with-meta', 'secret-redacted-html', 'secret-redacted-json', 'fault-fired-page-200', 'all-calls-failing', 'depth-2',
+    required_probes = ('host-context-processor-requires-a-secret-resource', 'endpoint-with-unserialisable-defaults', 'equal-but-different-values-listed', 'cookie-key-given-as-text', 'tuple-valued-resource', 'secret-resource-with-failing-repr', 'host-context-names-clash-with-meta-working-names', 'sibling-section-cannot-be-computed', 'host-shares-middleware-type-with-meta', 'secret-redacted-html', 'secret-redacted-json', 'fault-fired-page-200', 'all-calls-failing', 'depth-2',
                        'plain-visible', 'bad-repr-section-inline', 'cookie-mw-present')
 
     # ---- generation --------------------------------------------------------
@@ -198,7 +212,8 @@ class C18(Check):
                 'cookie': rng.choice([False, False, True, 'str']), 'extra_mws': rng.random() < 0.4,
                 'host_mws': rng.sample(sorted(HOST_MWS), rng.randint(0, 3)),
                 'prefix': rng.choice(['/_meta/', '/m', '/deep/er/meta/', '/']), 'depth': rng.choice([1, 1, 2]),
-                'static': rng.random() < 0.3, 'embedded': rng.random() < 0.4}
+                'static': rng.random() < 0.3, 'embedded': rng.random() < 0.4, 'exotic_defaults': rng.random() < 0.4,
+                'ctx_requires': rng.random() < 0.3}
 
     def gen_faults(self, rng, n):
         sites = sorted(s for s in SITES if SITES[s][1] or SITES[s][2])
@@ -264,10 +279,13 @@ class C18(Check):
         yield_info = {}
         routes = []
         for i, kind in enumerate(cfg['routes']):
-            spec = {'req': ['request'], 'opt': [], 'kwreq': [], 'kwopt': [], 'kind': kind}
+            # (defaulted parameters nobody provides: their defaults are arbitrary Python objects)
+            spec = {'req': ['request'], 'opt': ['page_size'] if i % 2 else [], 'kwreq': [], 'kwopt': ['mode'] if i % 3 == 0 else [], 'kind': kind}
             ep = wrap_kind(spec, 'EP%d' % i, 'resp')
             render = {'none': None, 'basic': render_basic, 'callable': ReprCallableRender()}[cfg['renders']]
             routes.append(Route('/r%d/<x>' % i, ep, render))
+        if cfg.get('exotic_defaults'):
+            routes.append(('/exotic/<x>', ep_exotic_defaults))
         if cfg.get('static'):
             routes.append(('/assets/', StaticApplication(cmeta._ASSET_PATH)))
         mws = []
@@ -278,6 +296,16 @@ class C18(Check):
             mws += [GzipMiddleware(), StatsMiddleware()]
         for name in cfg.get('host_mws', []):
             mws.append(HOST_MWS[name]())
+        if cfg.get('ctx_requires'):
+            # the host's own pages get some of its resources in every render context (site name, API keys for widgets...):
+            # a context processor REQUIRING them -- it runs for the embedded meta application's pages, too
+            from clastic.middleware.context import ContextProcessor
+            import re as _re
+            names = [r['name'] for r in cfg['resources'] if _re.match(r'^[A-Za-z_][A-Za-z0-9_]*$', r['name'])
+                     and r['name'] not in ('page_title', '_meta_start_time', 'resources')]
+            if names:
+                mws.append(ContextProcessor(required=sorted(names)))
+                self._ctx_required = sorted(names)
         meta = MetaApplication()
         prefix = cfg['prefix']
         inner_res = res_dict(cfg['inner_resources'], 'inner')
@@ -321,6 +349,10 @@ class C18(Check):
                 res.probe('sibling-section-cannot-be-computed')
             if cfg['depth'] == 2:
                 res.probe('depth-2')
+            if cfg.get('exotic_defaults'):
+                res.probe('endpoint-with-unserialisable-defaults')
+            if cfg.get('ctx_requires') and any('secret' in r['name'] and r['name'].replace('_', 'a').isalnum() for r in cfg['resources']):
+                res.probe('host-context-processor-requires-a-secret-resource')
             for step, op in enumerate(plan['ops']):
                 stub.set_faults(op['faults'])
                 path = base + ('json/' if op['view'] == 'json' else '')
